@@ -9,6 +9,7 @@ import (
 	"crypto/sha256"
 	"bufio"
 	"bytes"
+	"compress/gzip"
 	"encoding/base64"
 	"encoding/hex"
 	"encoding/json"
@@ -532,6 +533,42 @@ func verifRunOp(f []string) (res string) {
 			}
 		}
 		return fmt.Sprintf("%s %s r=%v w=%v calls=%d", status, hex.EncodeToString(wr.buf.Bytes()), rd.reached, wr.reached, wr.calls)
+	case "files":
+		// files <cfg> <kinds> <hex> <hex> ...: several input FILES through ProcessMongoLogFile, one after the other, in THIS process
+		// under ONE configuration (what Atlas mode does with the downloaded logs); kinds: one letter per file, p = plain, g = .gz
+		verifSetCfg(f[2])
+		dir, derr := os.MkdirTemp("", "verif_files_")
+		if derr != nil {
+			return "err mkdtemp"
+		}
+		defer os.RemoveAll(dir)
+		var outs []string
+		for k := 4; k < len(f); k++ {
+			data, _ := hex.DecodeString(f[k])
+			name := fmt.Sprintf("%s/in%d.log", dir, k)
+			if k-4 < len(f[3]) && f[3][k-4] == 'g' {
+				name += ".gz"
+				var zb bytes.Buffer
+				zw := gzip.NewWriter(&zb)
+				zw.Write(data)
+				zw.Close()
+				data = zb.Bytes()
+			}
+			if err := os.WriteFile(name, data, 0o600); err != nil {
+				return "err write"
+			}
+			var ob bytes.Buffer
+			err := ProcessMongoLogFile(&DefaultFileReader{}, name, &ob, nil)
+			st := "ok"
+			if err != nil {
+				st = "err"
+				if errors.Is(err, bufio.ErrTooLong) {
+					st = "toolong"
+				}
+			}
+			outs = append(outs, st+":"+hex.EncodeToString(ob.Bytes()))
+		}
+		return strings.Join(outs, " ")
 	case "encrt": // Encrypt/Decrypt round trip at API level: encrt <keyhex> <pthex>
 		key, _ := hex.DecodeString(f[2])
 		pt, _ := hex.DecodeString(f[3])
